@@ -286,7 +286,8 @@ class _EulerBernoulli(_GroupElem):
         lines = np.repeat(range(N), N)
         columns = np.array(list(range(N)) * N)
         for n in range(dof_n * nPe // 3):
-            P_e_pg[:, 0, lines + n * N, columns + n * N] = P[:, lines, columns]
+            # B and N act on local dofs: u_local = P^T · u_global (P maps local -> global)
+            P_e_pg[:, 0, lines + n * N, columns + n * N] = P[:, columns, lines]
 
         return P_e_pg
 
